@@ -91,6 +91,10 @@ TrPath == /\ l <= NRec /\ Ev.ev = "path"
 
 \* "The cumulative cost reported for each morpheme in mode C equals that sum"
 TrResult == /\ l <= NRec /\ Ev.ev = "result"
+            \* "For every input and every dictionary, the segmentation chosen ... is a minimum-cost path": an analysis abandoned by a
+            \* panic (an arithmetic overflow in a total, an index outside a row) chooses none; the recorded inputs are short and every
+            \* recorded configuration has a fallback OOV provider, so an error value is not expected either way and is left to C03
+            /\ Ev.res # "panic"
             /\ (Ev.res = "ok" /\ info.mode = 2 /\ info.plain /\ Len(path) > 0) =>
                   /\ Len(Ev.morphemes) = Len(path)
                   /\ \A k \in 1..Len(path) : Ev.morphemes[k].total = CumCost(path, k)
